@@ -168,9 +168,33 @@ func runPath(s *explore.Suite, events []sim.Event) ([]*common.Violation, error) 
 	return all, nil
 }
 
+// runLeafPath executes a path and then the suite's leaf oracle.
+func runLeafPath(s *explore.Suite, events []sim.Event) ([]*common.Violation, error) {
+	x, _ := explore.NewExec(s)
+	defer x.Close()
+	for _, e := range events {
+		if _, err := x.Apply(e); err != nil {
+			return nil, err
+		}
+	}
+	if s.Leaf == nil {
+		return nil, nil
+	}
+	if v := s.Leaf(x.C); v != nil {
+		return []*common.Violation{v}, nil
+	}
+	return nil, nil
+}
+
 func confirm(s *explore.Suite, f *explore.Found) bool {
 	for i := 0; i < 5; i++ {
-		vs, err := runPath(s, f.Events)
+		var vs []*common.Violation
+		var err error
+		if f.Leaf {
+			vs, err = runLeafPath(s, f.Events)
+		} else {
+			vs, err = runPath(s, f.Events)
+		}
 		if err != nil {
 			return false
 		}
@@ -220,6 +244,11 @@ func replay(path string) int {
 			}
 			if v != nil {
 				met = append(met, append([]*common.Violation(nil), x.All...)...)
+			}
+		}
+		if s.Leaf != nil && r.Property == "C15" {
+			if lv := s.Leaf(x.C); lv != nil {
+				met = append(met, lv)
 			}
 		}
 		if os.Getenv("VERIF_DUMP") != "" {
